@@ -33,6 +33,8 @@ C11's index rule (bisect slot) is included.
 Round 6: constructor-derived attributes of Int that go stale when another class resizes the
 object (R9-ctor-derived-state); the selector's own packet stored; pack cutting / padding the
 value to a recomputed size.
+Round 7: the marker strategies of a kind split over several strategies are each judged under the
+test that selects them; a delimiter left out of the value is remembered for pack (C06-e').
 """
 import ast
 
